@@ -3067,7 +3067,7 @@ mutual
       rw [ref_le_spec_cmds rest r1.2 more hp.2 h2]
       exact h
   theorem ref_le_spec_cases : ∀ (cs : CaseList) (sv : Val) (env : SEnv) (out : Bytes), plainCases cs = true →
-      refCases F ae cs sv env = .val out → Spec.Eval.renderCases reg hasBundle (ae != .off) entry call cs sv env = .val out
+      refCases F ae cs sv env = .val out → Spec.Eval.renderCases reg hasBundle (ae != .off) entry call none cs sv env = .val out
     | .nil, sv, env, out, _, h => by
       rw [Spec.Eval.renderCases]
       simpa [refCases] using h
